@@ -216,5 +216,10 @@ def export_to_csv(
 
         input_vals = np.array(df[column_map["id"]])
         output_vals = np.array(df[column_map["track_id"]], dtype=dtype)
-        relabeled_seg = map_array(tracks.segmentation, input_vals, output_vals)
+        segmentation = np.asarray(tracks.segmentation)
+        if not segmentation.dtype.isnative:
+            # map_array only accepts native byte order (label images read from some
+            # TIFFs are big-endian)
+            segmentation = segmentation.astype(segmentation.dtype.newbyteorder("="))
+        relabeled_seg = map_array(segmentation, input_vals, output_vals)
         tifffile.imwrite(seg_path, relabeled_seg, compression="deflate")
